@@ -9,6 +9,7 @@ import EpgVerif.Model.Sim
 import EpgVerif.Model.RF
 import EpgVerif.Model.Guards
 import EpgVerif.Model.ND
+import EpgVerif.Model.Diffusion
 /-
   Line-protocol driver over the executable model at `K := CF` (DESIGN Appendix A).
   One request per line; floats travel as the decimal of their IEEE-754 bits.
@@ -416,6 +417,20 @@ def step (d : DState) (line : String) : DState × List String :=
   | ["nshift", a, b, c, t] =>
       let g := k4OfToks a b c t
       ({ d with nds := d.nds.shift g, nops := d.nops.push (.shift g) }, [])
+  | "ndiff" :: dim :: k0 :: k1 :: k2 :: tau :: rest =>
+      let kv : Array Float := #[fOfTok k0, fOfTok k1, fOfTok k2]
+      let wave : K4 → Nat → CF := fun k n =>
+        ⟨(match n with | 0 => Float.ofInt k.x | 1 => Float.ofInt k.y | _ => Float.ofInt k.z) * kv.getD n 0, 0⟩
+      let (dv, rest') := match rest with
+        | "scalar" :: x :: more => (Diff5.Diffusivity.scalar (cOfTok x), more)
+        | "tensor" :: more =>
+          let v := (more.take 9).toArray.map cOfTok
+          (Diff5.Diffusivity.tensor (fun i j => v.getD (3 * i + j) 0), more.drop 9)
+        | _ => (Diff5.Diffusivity.scalar 0, [])
+      let sh : Option (Nat → CF) := match rest' with
+        | [a, b, c] => let v := #[cOfTok a, cOfTok b, cOfTok c]; some (fun n => v.getD n 0)
+        | _ => none
+      ({ d with nds := Diff5.diffuse dim.toNat! wave (cOfTok tau) dv sh d.nds }, [])
   | ["ndump"] => (d, [dumpND d.nds])
   | ["nsynth", k0, k1, k2, x0, x1, x2, tv, w] =>
       let χ := posCharF #[fOfTok k0, fOfTok k1, fOfTok k2] #[fOfTok x0, fOfTok x1, fOfTok x2] (fOfTok tv) (fOfTok w)
